@@ -7,8 +7,11 @@ export GOFLAGS=-mod=mod GOPROXY=off GOSUMDB=off GOTOOLCHAIN=local
 d=$(mktemp -d /tmp/mut.XXXXXX)
 rsync -a --exclude .git /repo/ "$d/"
 if ! (cd "$d" && patch -p1 -s < "$patch"); then echo "PATCH FAILED"; rm -rf "$d"; exit 2; fi
-if ! (cd "$d" && go build ./... && go test -vet=off -count=1 ./... >"$d/.test.out" 2>&1); then echo "REPO TESTS FAIL with the patch (not a valid mutation):"; grep -v "^ok\|no test files" "$d/.test.out" | head -20; rm -rf "$d"; exit 2; fi
+if ! (cd "$d" && go build ./...); then echo "BUILD FAILS with the patch"; rm -rf "$d"; exit 2; fi
+if [ -z "$NOTEST" ]; then
+if ! (cd "$d" && go test -vet=off -count=1 ./... >"$d/.test.out" 2>&1); then echo "REPO TESTS FAIL with the patch (not a valid mutation; NOTEST=1 to run the checks anyway):"; grep -v "^ok\|no test files" "$d/.test.out" | head -6; rm -rf "$d"; exit 2; fi
 echo "repo tests pass with the patch"
+fi
 cd /verif
 for id in "$@"; do
   cp evidence/$id.json "$d/.ev.$id" 2>/dev/null
